@@ -161,7 +161,8 @@ class PoolEngine(Engine):
                                         "ms": duration(i)}
                 if "raise" in enabled and rng.random() < 0.15:
                     task["raise"] = rng.choice(["ValueError", "KeyError", "RuntimeError", "Boom", "ZeroDivisionError",
-                                                "StopIteration"] + (["BadInit"] if timeout is not None else []))
+                                                "StopIteration", "OSError", "FileNotFoundError", "BrokenPipeError"]
+                                               + (["BadInit"] if timeout is not None else []))
                 if "unpicklable_result" in enabled and rng.random() < 0.1:
                     task["unpicklable_result"] = True
                 if "unpicklable_arg" in enabled and rng.random() < 0.1:
@@ -219,7 +220,7 @@ class PoolEngine(Engine):
                     # the names already handed out in mind
                     spec["id"] = long_family.format(i=i)
                 if not spec["genes"] and rng.random() < 0.12:
-                    spec["id"] = f"rec{i}bad"          # gene finding fails on this one
+                    spec["id"] = f"rec{i}" + rng.choice(["bad", "bad", "nobin"])          # gene finding fails on this one
                     spec["seq"] = "".join(rng.choice("ACGT") for _ in spec["seq"])
                 tasks.append({"i": i, "spec": spec, "ms": duration(i), "ms2": duration(n - i)})
         scenario["tasks"] = tasks
@@ -829,7 +830,7 @@ class _Execution:
             res.probe("preprocess_duplicate_ids")
         if any(not t["spec"]["genes"] for t in tasks):
             res.probe("preprocess_genefinding")
-        if any(t["spec"]["id"].endswith("bad") for t in tasks):
+        if any(t["spec"]["id"].endswith(("bad", "nobin")) for t in tasks):
             res.probe("preprocess_genefinding_failure")
         simpool.install(simpool.Schedule([]))
         reference = self._preprocess_once(1, simulated=False)
@@ -837,6 +838,12 @@ class _Execution:
         simpool.install(sched)
         outcome = self._preprocess_once(k, simulated=True)
         self.trace.append(["outcome", _outcome_class(outcome), _outcome_class(reference)])
+        # with several failing records the failure that surfaces is the first to arrive, not the first in order:
+        # any of the errors that the sequential run could have met is a correct report
+        failures = {"AntismashInputError" if t["spec"]["id"].endswith("bad") else "FileNotFoundError"
+                    for t in tasks if t["spec"]["id"].endswith(("bad", "nobin")) and not t["spec"]["genes"]}
+        if outcome[0] == "raised" and reference[0] == "raised" and {outcome[1], reference[1]} <= failures:
+            return
         if _outcome_class(outcome) != _outcome_class(reference):
             res.violate("C18-p", f"pre_process_sequences with cpus={k} gave {_outcome_class(outcome)}, with cpus=1 "
                         f"{_outcome_class(reference)} ({len(tasks)} records)", sig="C18-p:outcome-class")
